@@ -613,7 +613,17 @@ def _bag(v):
     return {task_tuple(k): n for k, n in v.items()}
 
 
-def spec_view(st, consts):
+def flat(state):
+    """TLC state (variables cs, mode, peers, ...) -> one dict with the fields of cs at top level."""
+    out = dict(state["cs"])
+    for k, v in state.items():
+        if k != "cs":
+            out[k] = v
+    return out
+
+
+def spec_view(state, consts):
+    st = flat(state)
     hosts = sorted(consts["Hosts"])
     sess = sorted(consts["Sessions"])
     phase = st["phase"]
